@@ -24,5 +24,10 @@ CONSTANTS
   FreshPerCall = TRUE
   ShareChoices = {FALSE}
   PerWriterWrapper = FALSE
+  FlushKinds = {"none"}
+  ErrKinds = {"plain"}
+  FlushAtEnd = FALSE
+  RetryKinds = {}
+  MaxRetry = 0
 INVARIANTS TypeOK CountExact SilentStillCounts PrefixDeliveredAnyWriter
 CHECK_DEADLOCK FALSE
